@@ -2,6 +2,7 @@
 import re
 
 import core
+import lib_positions as P
 import lib_syntax as L
 import progs
 import tie
@@ -13,7 +14,20 @@ RULE = ("a known offending token is planted after generated preceding text (prog
         "element, a property `.k` and an indexed property `[\"k\"]`, also nested targets and inside called functions: expected "
         "position = the op-assign token), call of a non-function and arity error "
         "(first token of the call expression), undefined name in an interpolation slot of an escape-free one-line literal, "
-        "and call chains of depth 2..4 raising inside nested (also anonymous / method) functions; every program is re-rendered "
+        "and call chains of depth 2..4 raising inside nested (also anonymous / method) functions; three generated families whose "
+        "offending token is computed by the generator (lib_positions, model-free: three-tier left-associative parse of the flat "
+        "chain + Python arithmetic, evaluation order lhs, rhs, apply): OPERATOR chains of 2..4 binary operators (all `+`; `+ -`; "
+        "arithmetic; all 16 operators) over literals, names, calls, elements and properties of all types with one planted type "
+        "mismatch / overflow / zero divisor at a chosen operator of the chain (also the op-assign token ending a chain), or one "
+        "operand that fails by itself (undefined name, call of a non-function, arity error: expected = its first token), the chain "
+        "standing as declaration / argument / item / value / condition / index / range end / `return` expression ...; KEYWORDS "
+        "`break` / `continue` executed outside any loop of the function (or script) that contains them — inside 0..2 if / else / "
+        "bare blocks, after a finished loop, the function called through 1..3 (fn / anonymous / method) calls from inside loops — "
+        "and `return` outside any function: expected position = the keyword; ARGUMENTS of the wrong type or sign (index, object "
+        "key, slice bound, range bound, condition of if / else-if / while, `for` iterable, spread operand in a list / call / "
+        "object, property name; as expression and as assignment target, in chains of 2..4 subscripts / nested literals): expected "
+        "position = the first token of that argument; each wrapped in 0..4 enclosing if / else / block / loop / function "
+        "constructs (every function adds an expected stack-trace line); every program is re-rendered "
         "under random admissible layouts (C09's engine: terminator choice, blank lines, comments, CR LF, continuation breaks, "
         "inter-token blanks, `_` separators, \\xHH); expected line = 1 + number of newlines before the token, column = 1 + "
         "characters since the last newline (5-line reference on the rewritten text); the first diagnostic line and every "
@@ -30,6 +44,10 @@ ASSUMPTIONS = [
     "the raising statement of a call chain is not a `return` expression (scheduled repair D7 changes that message's shape)",
     "a line break as the offending character / unexpected token is planted only in the K7 family (known finding: reported at "
     "(following line, column 0))",
+    "operator chains: no failure is planted in a right operand of `&&` / `||` that a short-circuit reading would skip; nothing "
+    "of the three generated families stands inside an interpolation slot or directly inside parentheses",
+    "`break` / `continue` escaping a called function: the stack trace may omit the call of the function that contains the "
+    "keyword (every line present must be the position of the corresponding call)",
 ]
 
 M = "«%d»"      # «k» marks the token whose position is expected
@@ -300,7 +318,7 @@ def judge(case, r):
         return "the first line of the diagnostic carries no position: " + r["stderr"].split("\n")[0][:120]
     if first != exp[0]:
         return f"diagnostic at {first[0]}:{first[1]}, the offending token is at {exp[0][0]}:{exp[0][1]}"
-    if trace != exp[1:]:
+    if trace != exp[1:] and not (case.get("trace_alt") and len(exp) > 1 and trace == exp[2:]):
         return f"stack-trace lines at {trace}, the calls are at {exp[1:]}"
     if not case["runs"] and r["stdout"] != "":
         return "a lexical / syntax error was reported after part of the program had run"
@@ -337,6 +355,7 @@ def build_cases(ctx, rng, n):
         lead = rng.choice(["", "", "\t", "  ", " \t "])
         text, marks = strip_markers(pre + lead + tail + rng.choice(FOLLOW_ANY if kind in ("lex", "parse") else FOLLOW))
         bases.append({"kind": kind, "tag": tag, "src": text, "marks": marks, "runs": runs})
+    bases += computed_families(ctx, rng, max(45, n // 4), ok)
     for fam, tag, tail, slot_start in known_families():
         pre = rng.choice(PRELUDES) if rng.random() < 0.7 else ""
         if pre and not pre.endswith(("\n", " ", "\t")):
@@ -344,6 +363,43 @@ def build_cases(ctx, rng, n):
         text, marks = strip_markers(pre + rng.choice(["", "\t", "  "]) + tail + rng.choice(FOLLOW))
         bases.append({"kind": "slot-" + fam, "tag": tag, "src": text, "marks": marks, "runs": True, "family": (fam, slot_start)})
     return bases
+
+
+def computed_families(ctx, rng, n, ok):
+    """operator chains / jump keywords / wrong arguments with generator-computed positions (lib_positions)"""
+    out = []
+    for i in range(n):
+        alt = False
+        if i % 3 == 0:
+            c = P.opchain_case(rng)
+            if c is None:
+                ctx.exclude("operator_chain_without_a_predictable_failure")
+                continue
+            tag, stmt, needs_fn, info = c
+            tail, m = P.nest(rng, stmt, P.plan_any(rng, rng.choice([0, 0, 1, 1, 2, 3]), need_fn=needs_fn))
+            kind = "opchain"
+            ctx.dist(f"opchain:{info['n']}ops-fails-at-{info['k']}")
+            ctx.dist(f"opchain:{info['why']}:{info['ops']}")
+        elif i % 3 == 1:
+            tag, tail, info = P.jump_case(rng)
+            kind, alt = "jump", True
+            ctx.dist(f"jump:{info['kw']}:through-{info['fn']}-calls")
+        else:
+            tag, tail, info = P.argument_case(rng)
+            kind = "argument"
+            ctx.dist(f"argument:{info['bad']}")
+        c = rng.random()
+        if c < 0.35 and ok:
+            pre = rng.choice(ok)
+        elif c < 0.8:
+            pre = "".join(rng.sample(PRELUDES, rng.randrange(1, 3)))
+        else:
+            pre = ""
+        if pre and not pre.endswith(("\n", " ", "\t")):
+            pre += "\n"
+        text, marks = strip_markers(pre + rng.choice(["", "", "\t", "  "]) + P.setup_for(rng, tail) + tail + rng.choice(FOLLOW))
+        out.append({"kind": kind, "tag": tag, "src": text, "marks": marks, "runs": True, "trace_alt": alt})
+    return out
 
 
 def run(ctx, model_ok):
@@ -383,7 +439,8 @@ def process(ctx, rng, model_ok, bases, n_layouts, state, thorough):
                 kw = (exp[0][0] + 1, 0)
             if offs:
                 cases.append({"kind": b["kind"], "tag": b["tag"], "src": src, "expect": exp, "runs": b["runs"], "how": "original",
-                              "before": src[:offs[0]], "family": b.get("family", (None,))[0], "known_wrong": kw})
+                              "before": src[:offs[0]], "family": b.get("family", (None,))[0], "known_wrong": kw,
+                              "trace_alt": b.get("trace_alt", False)})
             continue
         if err is not None and err[0] != "lex":
             ctx.exclude("token_dump_unusable")
@@ -428,7 +485,8 @@ def process(ctx, rng, model_ok, bases, n_layouts, state, thorough):
             if b.get("family", (None,))[0] == "K7" and exp:
                 known_wrong = (exp[0][0] + 1, 0)
             cases.append({"kind": b["kind"], "tag": b["tag"], "src": s2, "expect": exp, "runs": b["runs"], "how": how,
-                          "before": s2[:offs[0]], "family": b.get("family", (None,))[0], "known_wrong": known_wrong})
+                          "before": s2[:offs[0]], "family": b.get("family", (None,))[0], "known_wrong": known_wrong,
+                          "trace_alt": b.get("trace_alt", False)})
     srcs = [c["src"] for c in cases]
     impl, dis = tie.run(ctx, srcs, "planted", model_ok, project=tie.proj_out_pos)
     failures = []
@@ -477,7 +535,8 @@ def process(ctx, rng, model_ok, bases, n_layouts, state, thorough):
                 key = (c["kind"], c["tag"])
         reported[key] = 1
         ctx.violation(f"C18 ({c['kind']}): {w2}",
-                      c["src"] + ("" if c["src"].endswith("\n") else "\n") + f"# C18 expect positions {exp}\n", details)
+                      c["src"] + ("" if c["src"].endswith("\n") else "\n") + (ALT_NOTE if c.get("trace_alt") else "")
+                      + f"# C18 expect positions {exp}\n", details)
     bad_srcs = {c["src"] for c, _, _ in failures}
     tie.report_disagreements(ctx, [d for d in dis if d[0] not in bad_srcs], "planted")
     # ---- positions stored in the tree (unobservable through diagnostics for nodes that never fail)
@@ -501,6 +560,7 @@ def process(ctx, rng, model_ok, bases, n_layouts, state, thorough):
             ctx.sample({"kind": c["kind"], "src": c["src"], "expected_positions": c["expect"], "stderr": r["stderr"]})
 
 
+ALT_NOTE = "# C18 the call of the function containing the keyword may be absent from the stack trace\n"
 EXPECT = re.compile(r"\n# C18 expect positions ((?:\d+:\d+ ?)+)\n\Z")
 SLOT_UNDEF = re.compile(r"\A[^\n:]*:(\d+):(\d+):(?: in '[^']*':)? \d+:\d+: '(\w+)' is not defined")
 
@@ -513,7 +573,7 @@ def oracle_one(ctx, src, r):
     if m:
         exp = [tuple(int(x) for x in p.split(":")) for p in m.group(1).split()]
         c = r if r is not None and r.get("stderr") is not None else core.run_cli(src)
-        why = judge({"expect": exp, "runs": True}, c)
+        why = judge({"expect": exp, "runs": True, "trace_alt": ALT_NOTE in src}, c)
         if why:
             return False, why + "\n" + c["stderr"]
         return True, ""
